@@ -15,7 +15,8 @@ pub struct Msx {
     pub reqi: RequestId,
 
     /// Message
-    #[bw(write_with = binrw_write_codepage_string::<96, _>)]
+    // LFS requires the last byte to be zero: 95 bytes of text at most, then the terminator
+    #[bw(write_with = binrw_write_codepage_string::<95, _>, pad_after = 1)]
     #[br(parse_with = binrw_parse_codepage_string::<96, _>)]
     pub msg: String,
 }
